@@ -73,9 +73,12 @@ func verifSameOutcome(p1 *interp, e1 error, p2 *interp, e2 error, names []string
 	return ok
 }
 
-// symbolic operand: 0 any float64, 1 string of <= 1 byte, 2 numeric input string, 3 unset
+// symbolic operand: 0 any float64, 1 string of <= 1 byte, 2 numeric input string, 3 unset, 4 input text from a list
+// of spellings that are special as numbers
 func verifTagged(kind int) value {
 	switch kind {
+	case 4:
+		return numStr([]string{"nan", "+nan", "NaN", "inf", "-inf", "0x10", " 1 ", "1e1", "+1", ".", "--1"}[verifIntRange(0, 10)])
 	case 0:
 		return num(verifFloat64())
 	case 1:
@@ -132,6 +135,28 @@ func VerifC01Fused() {
 	verifKnown("C01-fused-nan", !aStr && !bStr && (an != an || bn != bn))
 	verifReach("compared")
 	verifAssert(verifSameOutcome(p1, e1, p2, e2, []string{"r", "n", "a", "b"}, "", nil), "a fused compare-and-branch condition behaves differently from the same comparison evaluated as an expression")
+}
+
+// the same with both operands input text whose spelling is special as a number (nan, inf, hex, signs, blanks)
+func VerifC01FusedSpecial() {
+	ops := []string{"==", "!=", "<", "<=", ">", ">="}
+	op := ops[verifIntRange(0, 5)]
+	shapes := [][2]string{
+		{`BEGIN { if (a OP b) r = 1; else r = 2 }`, `BEGIN { if ((a OP b)) r = 1; else r = 2 }`},
+		{`BEGIN { while (a OP b) { n++; if (n >= 2) break }; r = n }`, `BEGIN { while ((a OP b)) { n++; if (n >= 2) break }; r = n }`},
+		{`BEGIN { r = (a OP b) ? 1 : 2 }`, `BEGIN { r = ((a OP b)) ? 1 : 2 }`},
+		{`BEGIN { r = 0; if (!(a OP b)) r = 1 }`, `BEGIN { t = (a OP b); r = 0; if (!t) r = 1 }`},
+	}
+	sh := shapes[verifIntRange(0, len(shapes)-1)]
+	va, vb := verifTagged(4), verifTagged(4)
+	if verifIntRange(0, 2) == 0 {
+		vb = va // the very same text on both sides
+	}
+	env := verifEnv{vars: map[string]value{"a": va, "b": vb}}
+	p1, e1 := verifExecEnv(verifReplaceOP(sh[0], op), env)
+	p2, e2 := verifExecEnv(verifReplaceOP(sh[1], op), env)
+	verifReach("compared")
+	verifAssert(verifSameOutcome(p1, e1, p2, e2, []string{"r", "n"}, "", nil), "a fused compare-and-branch condition on input text that is special as a number behaves differently from the same comparison evaluated as an expression")
 }
 
 func verifReplaceOP(tmpl, op string) string {
